@@ -110,17 +110,32 @@ ht2mjd(const unsigned int *cal, size_t nm, struct ymd_s h)
 	return MT(cal)[i] + (h.d - 1U);
 }
 
+static inline __attribute__((const, pure)) int
+__fdiv(int a, int b)
+{
+/* floor division, the shifts may be negative */
+	const int q = a / b;
+	return (a % b < 0) ? q - 1 : q;
+}
+
+static inline __attribute__((const, pure)) int
+__hij_dby(hij_typ_t t, int k)
+{
+/* days of the 30 year cycle that lie before year K of the cycle */
+	return __fdiv(k * 1063100 + (int)tsh[t], 3000);
+}
+
 static inline __attribute__((const, pure)) mjd_t
 hij2mjd(hij_typ_t t, hij_epo_t e, struct ymd_s h)
 {
 	static const unsigned int m[] = {
 		0U, 0U, 30U, 59U, 89U, 118U, 148U, 177U, 207U, 236U, 266U, 295U, 325U
 	};
-	const unsigned int doy = m[h.m] + h.d;
-	const unsigned int cyc = h.y / 30U;
-	const unsigned int k = h.y % 30U;
-	const unsigned int z1 = cyc * 10631U + (k * 1063100U + tsh[t]) / 3000U + doy;
-	return z1 + epo[e] - 2400000U;
+	const int doy = m[h.m] + h.d;
+	const int cyc = h.y / 30U;
+	const int k = h.y % 30U;
+	const int z1 = cyc * 10631 + __hij_dby(t, k) + doy;
+	return (mjd_t)(z1 + (int)(epo[e] - 2400000U));
 }
 
 static inline __attribute__((const, pure)) mjd_t
@@ -181,16 +196,34 @@ static inline __attribute__((const, pure)) struct ymd_s
 mjd2hij(hij_typ_t t, hij_epo_t e, mjd_t j)
 {
 /* integer only version of Gent's converter */
-	const unsigned int z = j + 2400000U - epo[e];
-	const unsigned int cyc = z / 10631U;
-	const unsigned int z1 = z % 10631U;
-	const unsigned int k = (3000U * z1 - tsh[t]) / 1063100U - !z1;
-	const unsigned int z2 = z1 - (((int)k * 1063100 + tsh[t]) / 3000) + !z1;
-	/* output */
-	const unsigned int y = 30U * cyc + k;
-	const unsigned int m = (10000U * z2 + 285001U) / 295000U;
-	const unsigned int d = z2 - (295001 * m - 290000U) / 10000U;
-	return (struct ymd_s){y, m, d};
+	static const unsigned int m[] = {
+		0U, 30U, 59U, 89U, 118U, 148U, 177U, 207U, 236U, 266U, 295U, 325U, 355U
+	};
+	const int z = (int)j - (int)(epo[e] - 2400000U);
+	int cyc = __fdiv(z, 10631);
+	int z1 = z - cyc * 10631;
+	int k = __fdiv(3000 * z1 - (int)tsh[t], 1063100);
+	unsigned int z2;
+	unsigned int mo;
+
+	/* the estimate may be off by one around the turn of a year */
+	while (__hij_dby(t, k + 1) < z1) {
+		k++;
+	}
+	while (__hij_dby(t, k) >= z1) {
+		k--;
+	}
+	z2 = z1 - __hij_dby(t, k);
+	if (k < 0) {
+		/* last year of the previous cycle */
+		k += 30;
+		cyc--;
+	} else if (k >= 30) {
+		k -= 30;
+		cyc++;
+	}
+	for (mo = 1U; mo < 12U && z2 > m[mo]; mo++);
+	return (struct ymd_s){30U * cyc + k, mo, z2 - m[mo - 1U]};
 }
 
 static __attribute__((pure, const)) unsigned int
@@ -224,17 +257,14 @@ __ndim_greg(unsigned int y, unsigned int m)
 static __attribute__((const, pure)) inline bool
 __hij_inty_p(hij_typ_t t, hij_epo_t UNUSED(e), unsigned int y)
 {
-/* do a trial conversion to mjd and back, see whether we end up with Dhu 30
+/* intercalary years have 355 days, i.e. a Dhu al-Hijja of 30
  * type I:   2, 5, 7, 10, 13, 15, 18, 21, 24, 26 & 29 as intercalary years
  * type II:  2, 5, 7, 10, 13, 16, 18, 21, 24, 26 & 29 as intercalary years
  * type III: 2, 5, 8, 10, 13, 16, 19, 21, 24, 27 & 29 as intercalary years
  * type IV:  2, 5, 8, 11, 13, 16, 19, 21, 24, 27 & 30 as intercalary years */
-	const unsigned int k = y % 30U;
-	const unsigned int z1 = ((k * 1063100U + tsh[t]) / 3000U + 355U) % 10631U;
-	const unsigned int kr = (3000U * z1 - tsh[t]) / 1063100U - !z1;
-	return z1 - (((int)kr * 1063100 + tsh[t]) / 3000) + !z1 != 1;
+	const int k = y % 30U;
+	return __hij_dby(t, k + 1) - __hij_dby(t, k) == 355;
 }
-
 static __attribute__((const, pure)) inline unsigned int
 __ndim_hij(hij_typ_t t, hij_epo_t e, unsigned int y, unsigned int m)
 {
